@@ -5,6 +5,8 @@ import (
 	"fmt"
 	"os"
 	"path/filepath"
+
+	"github.com/XiXi-2024/xixi-kv/verifrt/sched"
 )
 
 // C20 — a backup taken at any time opens to the state at the time of the backup.
@@ -147,7 +149,7 @@ func init() {
 	register(&Check{
 		Prop:   "C20",
 		Engine: "seq",
-		Rule:   "operation sequences with Backup at every position (1..2 backups per sequence), under both I/O back-ends; each Backup is verified (returns nil, no .lock, copy opens while the source is open, dump equal to the source's dump at the call, copy writable independently); then the source's own reference-map oracle through further writes incl. a 3-block Put and a restart. non-trivial = the source had rotated files when a Backup was taken",
+		Rule:   "operation sequences with Backup at every position (1..2 backups per sequence), under both I/O back-ends; each Backup is verified (returns nil, no .lock, copy opens while the source is open, dump equal to the source's dump at the call, copy writable independently); then the source's own reference-map oracle through further writes incl. a 3-block Put and a restart; plus, under the controlled scheduler, Backup racing one Put / Delete / batch / Merge / Sync (ALL schedules, both back-ends): the copy opens to the mapping before or after that call, the source keeps working. non-trivial = the source had rotated files when a Backup was taken",
 		Assumptions: []string{
 			"SIGBUS/SIGSEGV on a mapping is turned into a recoverable panic (debug.SetPanicOnFault) and reported as a violation",
 		},
@@ -156,7 +158,7 @@ func init() {
 			if tier == "thorough" {
 				d, b = 5, 2
 			}
-			return seqTasks("C20", []seqLevel{{Name: fmt.Sprintf("d%db%d", d, b), Cfgs: c20Cfgs(tier), Keys: keysAB, Alpha: c20Alphabet, Depth: d, Dev: b, Run: runC20}})
+			return append(seqTasks("C20", []seqLevel{{Name: fmt.Sprintf("d%db%d", d, b), Cfgs: c20Cfgs(tier), Keys: keysAB, Alpha: c20Alphabet, Depth: d, Dev: b, Run: runC20}}), c20RaceTasks(tier)...)
 		},
 		Bounds: func(tier string) map[string]any {
 			d, b := 4, 2
@@ -165,6 +167,185 @@ func init() {
 			}
 			return map[string]any{"depth": d, "deviation_bound": b, "configs": len(c20Cfgs(tier)), "sequences_per_config_before_filter": countSeq(c20Alphabet(defaultCfg), d, b)}
 		},
-		Replay: func(raw json.RawMessage) { seqReplayMain(raw, runC20) },
+		Replay: func(raw json.RawMessage) {
+			var e struct {
+				Engine string `json:"engine"`
+			}
+			json.Unmarshal(raw, &e)
+			if e.Engine == "sched-backup" {
+				replayBackupRace(raw)
+				return
+			}
+			seqReplayMain(raw, runC20)
+		},
 	})
+}
+
+// ---- Backup racing a writer or a Merge (all schedules) -----------------------------------------------------------
+// "the mapping the source had when Backup was called": with a call in flight next to it, the copy holds the mapping
+// before that call or after it, whole; both calls succeed; the source ends with the mapping after it.
+
+type backupRaceReplay struct {
+	Engine   string `json:"engine"`
+	Prop     string `json:"property"`
+	Cfg      Cfg    `json:"cfg"`
+	Init     []Op   `json:"init"`
+	Other    Op     `json:"other"`
+	Schedule []int8 `json:"schedule"`
+	Text     string `json:"text"`
+}
+
+func runBackupRace(cfg Cfg, init []Op, other Op, prefix []int8, res *TaskResult) (ex *ExecResult, bad string) {
+	beginExecution()
+	w := NewWorld(cfg, keysAB)
+	defer w.Destroy()
+	ex = &ExecResult{}
+	if err := w.Open(); err != nil {
+		ex.OpenErr = panicDetail(err)
+		return
+	}
+	for _, op := range init {
+		if ar := w.Apply(op); ar.Err != nil || w.Dead {
+			ex.OpenErr = "init failed"
+			return
+		}
+	}
+	pre := copyModel(w.Model)
+	db := w.DB
+	dst := filepath.Join(w.Root, "backup")
+	var berr error
+	var oar ApplyResult
+	ex.Sched = sched.Run(prefix, func() { berr = w.guard(func() error { return db.Backup(dst) }) }, func() { oar = w.Apply(other) })
+	sched.SetMode(sched.ModeSeq)
+	if ex.Sched.Abort != sched.AbortNone {
+		w.Dead = true
+		return
+	}
+	for i, p := range ex.Sched.Panics {
+		if p != "" {
+			w.Dead = true
+			return ex, fmt.Sprintf("thread %d panicked: %s", i, firstLine(p))
+		}
+	}
+	post := copyModel(w.Model)
+	if berr != nil {
+		return ex, "Backup returned " + panicDetail(berr)
+	}
+	if oar.Err != nil && !(other.K == "merge" && errClass(oar.Err) == "ErrMergeIsProgress") {
+		return ex, fmt.Sprintf("%s next to a Backup returned %s", other, panicDetail(oar.Err))
+	}
+	if w.Dead {
+		return ex, "the source panicked"
+	}
+	if c, d := w.CheckReads(); c != "" {
+		return ex, "source after Backup || " + other.String() + ": " + d
+	}
+	if _, err := os.Stat(filepath.Join(dst, ".lock")); err == nil {
+		return ex, "the backup directory contains the source's .lock file"
+	}
+	cp := &World{Cfg: cfg, Root: dst + "-root", Dir: dst, Model: map[string]string{}, Keys: keysAB, Cnt: map[string]int64{}, Hist: map[string]map[string]bool{}}
+	if err := cp.Open(); err != nil {
+		return ex, "opening the backup while the source is open: " + panicDetail(err)
+	}
+	d := cp.DumpDB()
+	res.Evals++
+	cp.Close()
+	if !raceAdmissible(d, pre, post, true) {
+		return ex, fmt.Sprintf("the backup opens to %s; the source held %s before %s and %s after it", d, modelString(pre), other, modelString(post))
+	}
+	ex.Calls = []CallRec{{Thread: 0, Call: Call{K: "backup"}, Extra: fmt.Sprint(sameMap(d.KV, post))}}
+	// the source stays usable: a further write and a restart
+	for _, op := range []Op{{K: "put", Key: "a", VC: "S"}, {K: "restart"}} {
+		if ar := w.Apply(op); ar.Err != nil || ar.Clause != "" || w.Dead {
+			return ex, fmt.Sprintf("source after Backup || %s: %s failed: %s %s", other, op, errClass(ar.Err), ar.Detail)
+		}
+		if c, d := w.CheckReads(); c != "" {
+			return ex, fmt.Sprintf("source after Backup || %s, after %s: %s", other, op, d)
+		}
+	}
+	return ex, ""
+}
+
+var c20RaceOthers = []Op{
+	{K: "put", Key: "a", VC: "S"},
+	{K: "put", Key: "b", VC: "X"}, // rotates
+	{K: "del", Key: "a"},
+	{K: "batch", Sub: []Op{{K: "put", Key: "a", VC: "L"}, {K: "put", Key: "b", VC: "L"}, {K: "put", Key: "a", VC: "S"}}},
+	{K: "merge", Arg: 1},
+	{K: "sync"},
+}
+
+func c20RaceTask(cfg Cfg, initName string, init []Op, other Op, pb int) func(res *TaskResult) {
+	return func(res *TaskResult) {
+		text := fmt.Sprintf("%s init=%s[%s] T0[backup] || T1[%s]", cfg, initName, traceString(init), other)
+		outcomes := map[string]bool{}
+		n, complete := exploreSchedules(func(prefix []int8) *ExecResult {
+			ex, bad := runBackupRace(cfg, init, other, prefix, res)
+			if bad != "" && ex.Sched != nil {
+				v := Violation{Prop: "C20", Clause: "backup-race", Sig: "backup-race:" + other.K,
+					Detail: fmt.Sprintf("%s\nschedule: %s\n%s", text, describeSchedule(ex), bad),
+					Replay: mustJSON(backupRaceReplay{Engine: "sched-backup", Prop: "C20", Cfg: cfg, Init: init, Other: other, Schedule: append([]int8{}, ex.Sched.Choices...), Text: text})}
+				addViolation(res, &v)
+				ex.OpenErr = "violation"
+			}
+			return ex
+		}, pb, 200000, func(ex *ExecResult, prefix []int8) bool {
+			res.Execs++
+			if ex.Sched == nil {
+				return true
+			}
+			res.Transitions += ex.Sched.Points
+			if ex.Sched.Abort == sched.AbortDiv {
+				res.Err = "replay divergence in Backup || " + other.String()
+				return false
+			}
+			if ex.Sched.Abort != sched.AbortNone {
+				v := Violation{Prop: "C20", Clause: "backup-race", Sig: "backup-race-deadlock:" + other.K, Detail: text + "\nschedule: " + describeSchedule(ex) + "\ndeadlock / livelock",
+					Replay: mustJSON(backupRaceReplay{Engine: "sched-backup", Prop: "C20", Cfg: cfg, Init: init, Other: other, Schedule: append([]int8{}, ex.Sched.Choices...), Text: text})}
+				addViolation(res, &v)
+				return false
+			}
+			if len(ex.Calls) > 0 {
+				outcomes[ex.Calls[0].Extra] = true
+			}
+			return ex.OpenErr != "violation"
+		})
+		if !complete {
+			res.Partial = true
+		}
+		for o := range outcomes {
+			res.States = append(res.States, hash64(text, o))
+		}
+		if len(outcomes) > 1 {
+			res.Nontrivial++ // both "copy holds the earlier mapping" and "copy holds the later one" were seen
+		}
+		res.count("max:schedules_per_scenario", int64(n))
+		res.Samples = append(res.Samples, fmt.Sprintf("%s: %d schedules, copy-equals-later-mapping outcomes %v", text, n, sortedKeys(outcomes)))
+	}
+}
+
+func c20RaceTasks(tier string) []Task {
+	var tasks []Task
+	mm := defaultCfg
+	mm.IO = 1
+	for _, c := range []Cfg{defaultCfg, mm} {
+		for _, name := range sortedKeys(c08MergeInits) {
+			for _, o := range c20RaceOthers {
+				tasks = append(tasks, Task{Level: "backup-race", Name: fmt.Sprintf("backup race %s %s %s", c, name, o), Fn: c20RaceTask(c, name, c08MergeInits[name], o, -1)})
+			}
+		}
+	}
+	return tasks
+}
+
+func replayBackupRace(raw json.RawMessage) {
+	var r backupRaceReplay
+	json.Unmarshal(raw, &r)
+	var res TaskResult
+	_, bad := runBackupRace(r.Cfg, r.Init, r.Other, r.Schedule, &res)
+	if bad != "" {
+		fmt.Printf("VIOLATION clause=backup-race\n%s\n%s\n", r.Text, bad)
+		os.Exit(1)
+	}
+	fmt.Println("no violation on this tree")
 }
